@@ -780,7 +780,9 @@ class BlockDownloadStream(io.RawIOBase):
         # Get the part of the block to resend
         block = self._current_block[ackseq:]
         # Go back to correct position in stream
-        self.pos = self.pos - (len(block) * 7)
+        self.pos = self.pos - sum(len(b) for b in block)
+        # The last segment may be part of the block to resend
+        self._done = False
         # Reset the _current_block before starting the retransmission
         self._current_block = []
         # Reset _seqno and update blksize
